@@ -451,7 +451,7 @@ String String::fromBase64(const String& data)
     };
     for (i = j = 0; i < inlen; ++i)
     {
-        if (in[i] > 'z') 
+        if ((unsigned char)in[i] > 'z')
             return String();
 
         c = base64de[(unsigned char)in[i]];
